@@ -819,7 +819,7 @@ class Generator:
     def g_transfer(self):
         # new = a re-rooted copy of src (alias / collect(keep_col_refs=False) / clone)
         m = self.m
-        cands = [p for p in (m.tables[t] for t in self.tables()) if p.m.same_as in m.tables and not p.m.hidden()]
+        cands = [p for p in (m.tables[t] for t in self.tables()) if p.m.same_as in m.tables]
         if not cands:
             return None
         new = self.rng.choice(cands)
